@@ -106,6 +106,10 @@ Req(fmt, cls) ==
       [] cls = "SHEETNAME"                               -> "DONTCARE"      \* xls: "no sheet names" (not generated here)
       [] OTHER                                           -> "DONTCARE"
 
+\* the requirement for a token atom: in the formats whose tables are outside the text, EVERYTHING inside a table (a
+\* heading or a link in a cell as well) is looked up in the tables
+ReqA(fmt, a) == IF fmt \in TablesOutsideText /\ "tbl" \in a[4] /\ Req(fmt, a[3]) = "MUST" THEN "DONTCARE" ELSE Req(fmt, a[3])
+
 (* ------------------------------ deviations (as-built behaviour) ------------------------------
    A deviation relaxes the rule for exactly the tokens in its domain, in exactly the way today's
    code misbehaves.  Strict checking uses dev = {}.                                            *)
@@ -137,13 +141,13 @@ InDomain(dv, fmt, a) ==
       [] OTHER                           -> FALSE
 
 MinCount(fmt, a, dev) ==
-    IF Req(fmt, a[3]) # "MUST" THEN 0
+    IF ReqA(fmt, a) # "MUST" THEN 0
     ELSE IF \E dv \in dev : dv \in {"Docx!BlockSdtLost", "Epub!TableTextDropped"} /\ InDomain(dv, fmt, a) THEN 0
     ELSE 1
 
 MaxCount(fmt, a, dev) ==
-    IF Req(fmt, a[3]) = "DONTCARE" THEN 99
-    ELSE IF Req(fmt, a[3]) = "MUSTNOT" THEN
+    IF ReqA(fmt, a) = "DONTCARE" THEN 99
+    ELSE IF ReqA(fmt, a) = "MUSTNOT" THEN
         (IF \E dv \in dev : dv \in {"Odt!TrackedDeletionLeaks", "Rtf!DeletedLeaks"}
                              /\ InDomain(dv, fmt, a) THEN 99 ELSE 0)       \* (Ppt!RawFallback: see Fidelity, its domain needs the whole document)
     ELSE IF \E dv \in dev : dv \in {"Docx!NestedTableRepeated", "Odt!NestedRepeated", "Html!NestedTableRepeated"}
@@ -192,7 +196,7 @@ Fidelity(flat, fmt, obs, sep, residue, dev) ==
     LET toks   == Tokens(flat)
         ids    == {toks[k][2] : k \in DOMAIN toks}
         atom(i) == toks[CHOOSE k \in DOMAIN toks : toks[k][2] = i]
-        strictIds == {i \in ids : Req(fmt, atom(i)[3]) = "MUST"}
+        strictIds == {i \in ids : ReqA(fmt, atom(i)) = "MUST"}
         otoks  == IF BoxesLast(fmt, dev) THEN SlideOrder(toks) ELSE toks
         order  == SelectSeq([k \in DOMAIN otoks |-> otoks[k][2]], LAMBDA i : i \in strictIds /\ Count(obs, i) > 0)
         seg    == SegOf(flat, fmt, dev)
@@ -231,7 +235,7 @@ UnitDeviationNames ==
 \* Paged formats: unit k mirrors source unit k.
 PagedUnits(d, fmt, us, dev) ==
     LET dropEmpty == ("Rtf!EmptyPageDropped" \in dev /\ fmt = "rtf") \/ ("Ppt!EmptySlideDropped" \in dev /\ fmt = "ppt")
-        hasText(k) == \E a \in Range(Tokens(FlatUnitBody(d.units[k]))) : Req(fmt, a[3]) = "MUST"
+        hasText(k) == \E a \in Range(Tokens(FlatUnitBody(d.units[k]))) : ReqA(fmt, a) = "MUST"
         keep == IF dropEmpty
                 \* rtf: pages without text are skipped.  ppt (_parse_slide_list_container): an empty slide is dropped
                 \* once any text has been seen, i.e. empty slides BEFORE the first slide with text are kept
@@ -248,15 +252,19 @@ PagedUnits(d, fmt, us, dev) ==
 \* The heading path of a section unit is the chain of open headings: heading i is an ancestor of heading j iff it
 \* precedes j and every heading after i up to and including j has a deeper level (one token per heading here).
 LevelOf(a) == IF "L1" \in a[4] THEN 1 ELSE IF "L2" \in a[4] THEN 2 ELSE 3
-HeadPathOK(toks, heads) ==
+HeadPathOKIn(hs, heads) ==
     \/ heads = <<>>
-    \/ LET hs == SelectSeq(toks, LAMBDA a : a[3] = "HEAD")
-           last == heads[Len(heads)]
+    \/ LET last == heads[Len(heads)]
        IN \E j \in DOMAIN hs :
             /\ hs[j][2] = last
             /\ LET anc == SelectSeq([i \in 1..j |-> i],
                                     LAMBDA i : i = j \/ \A m \in (i + 1)..j : LevelOf(hs[m]) > LevelOf(hs[i]))
                IN heads = [i \in DOMAIN anc |-> hs[anc[i]][2]]
+\* a heading-styled paragraph inside a table cell is cell content; whether it also opens a section is left open
+\* (Word's outline does not list it, an ODF outline does): the chain may be computed with or without such headings
+HeadPathOK(toks, heads) ==
+    \/ HeadPathOKIn(SelectSeq(toks, LAMBDA a : a[3] = "HEAD"), heads)
+    \/ HeadPathOKIn(SelectSeq(toks, LAMBDA a : a[3] = "HEAD" /\ "tbl" \notin a[4]), heads)
 
 \* Flowing-text formats: one unit or one per heading section; together they cover the body exactly.
 \* Heading tokens may live in the heading path, cell tokens in the unit's tables.
@@ -271,12 +279,12 @@ FlowUnits(d, fmt, us, dev) ==
                      THEN CHOOSE j \in DOMAIN toks : toks[j][3] = "HEAD" /\ \A i \in 1..(j - 1) : toks[i][3] # "HEAD"
                      ELSE 0
         \* next visible token after position j (0 = none)
-        nextVis(j) == IF \E i \in (j + 1)..Len(toks) : Req(fmt, toks[i][3]) = "MUST"
-                      THEN CHOOSE i \in (j + 1)..Len(toks) : Req(fmt, toks[i][3]) = "MUST"
-                                /\ \A h \in (j + 1)..(i - 1) : Req(fmt, toks[h][3]) # "MUST"
+        nextVis(j) == IF \E i \in (j + 1)..Len(toks) : ReqA(fmt, toks[i]) = "MUST"
+                      THEN CHOOSE i \in (j + 1)..Len(toks) : ReqA(fmt, toks[i]) = "MUST"
+                                /\ \A h \in (j + 1)..(i - 1) : ReqA(fmt, toks[h]) # "MUST"
                       ELSE 0
         emptySection(a) == a[3] = "HEAD" /\ (nextVis(pos(a)) = 0 \/ toks[nextVis(pos(a))][3] = "HEAD")
-        lo(a) == IF (a[3] = "HEAD" /\ a[2] \in heads) \/ (a[3] = "CELL" /\ a[2] \in tbls)
+        lo(a) == IF (a[3] = "HEAD" /\ a[2] \in heads) \/ ((a[3] = "CELL" \/ "tbl" \in a[4]) /\ a[2] \in tbls)
                     \/ ("Docx!PreambleLost" \in dev /\ fmt = "docx" /\ firstHead > 0 /\ pos(a) < firstHead)
                     \/ ("Odt!EmptyHeadingDropped" \in dev /\ fmt = "odt" /\ emptySection(a))
                     \/ ("Docx!UnitsBlockSdtLost" \in dev /\ fmt = "docx" /\ "bsdt" \in a[4])
@@ -292,13 +300,13 @@ FlowUnits(d, fmt, us, dev) ==
        /\ \A k \in DOMAIN all : \E j \in DOMAIN toks : toks[j][2] = all[k]               \* nothing invented
        /\ \A j \in DOMAIN toks : /\ Count(all, toks[j][2]) >= lo(toks[j])                 \* every piece in some unit
                                  /\ Count(all, toks[j][2]) <= hi(toks[j])                 \* ... and in no other
-       /\ LET strict == {toks[j][2] : j \in {i \in DOMAIN toks : Req(fmt, toks[i][3]) = "MUST" /\ toks[i][3] # "HEAD"}}
+       /\ LET strict == {toks[j][2] : j \in {i \in DOMAIN toks : ReqA(fmt, toks[i]) = "MUST" /\ toks[i][3] # "HEAD"}}
               order  == SelectSeq([j \in DOMAIN toks |-> toks[j][2]], LAMBDA i : i \in strict /\ Count(all, i) > 0)
           IN FirstOcc(SelectSeq(all, LAMBDA i : i \in strict), {}) = order               \* source order across units
        /\ \A k \in DOMAIN us : \A w \in DOMAIN us[k].residue : AllowedResidue(fmt, us[k].residue[w], dev)
        /\ \A k \in DOMAIN us : HeadPathOK(toks, us[k].heads)
 
-NoSlideText(d, fmt) == \A k \in DOMAIN d.units : \A a \in Range(Tokens(FlatUnitBody(d.units[k]))) : Req(fmt, a[3]) # "MUST"
+NoSlideText(d, fmt) == \A k \in DOMAIN d.units : \A a \in Range(Tokens(FlatUnitBody(d.units[k]))) : ReqA(fmt, a) # "MUST"
 
 Units(d, fmt, us, full, joinok, dev) ==
     /\ IF "Ppt!RawFallback" \in dev /\ fmt = "ppt" /\ NoSlideText(d, fmt)
@@ -331,7 +339,7 @@ HasNested(t) == \E a \in Range(Tokens(FlatBlock(t, Ctx0("BODY")))) : "tbl.nested
 \* expected content of a source cell: ids of its MUST tokens, in order
 CellIds(cell, fmt) ==
     LET ts == Tokens(FlatBlocks(cell, [cls |-> "CELL", marks |-> {"tbl"}]))
-    IN SelectSeq([k \in DOMAIN ts |-> IF Req(fmt, ts[k][3]) = "MUSTNOT" THEN 0 ELSE ts[k][2]], LAMBDA i : i # 0)
+    IN SelectSeq([k \in DOMAIN ts |-> IF ReqA(fmt, ts[k]) = "MUSTNOT" THEN 0 ELSE ts[k][2]], LAMBDA i : i # 0)
 
 \* an observed cell is a record [k |-> "ids" | "lit" | "val", v |-> token ids, s |-> other text / typed value]
 IsIds(c) == c.k = "ids"
